@@ -286,7 +286,16 @@ type valueOutput struct {
 	sendError *error
 }
 
-func (vo valueOutput) Put(v any) error {
+func (vo valueOutput) Put(v any) (err error) {
+	// The owner of a port closes its value channel when the evaluation the
+	// port was made for has finished. A background job started by that
+	// evaluation may still be writing then (as in "nop ({ sleep 1; put a } &)");
+	// nobody will read the value, which is what reader gone means.
+	defer func() {
+		if recover() != nil {
+			err = errs.ReaderGone{}
+		}
+	}()
 	if vo.data == ClosedChan {
 		// An input-only or closed port redirected to an output, like in
 		// "put x >&0". Sending on the closed channel would panic.
